@@ -37,7 +37,7 @@ Proof.
   set (g1 := g ++ [empty_block]) in *. set (gg := g1 ++ [empty_block]) in *.
   assert (L1: length g1 = S (length g)) by (unfold g1; rewrite app_length; simpl; lia).
   assert (LG: length gg = S (S (length g))) by (unfold gg; rewrite app_length; simpl; lia).
-  rewrite L1 in B3, B4, B5.
+  rewrite L1 in B3, B5.
   destruct (opn_app g bb empty_block O) as (O1&SL1). fold g1 in O1, SL1.
   destruct (opn_app g1 bb empty_block O1) as (O2&SL2). fold gg in O2, SL2.
   destruct (opn_new g) as (OT&SLT). fold g1 in OT, SLT.
@@ -65,9 +65,9 @@ Proof.
     eapply grows_trans_gen; [| exact Gr3 | left; reflexivity].
     eapply grows_trans_gen; [apply grows_new | apply grows_new | left; reflexivity]. }
   (* the part of the run common to all merge shapes *)
-  assert (Run: forall G, ext g5 G -> forall fuel st o st' ret,
+  assert (Run: forall G : cfg, ext g5 G -> forall (fuel : nat) (st : state) (o : outcome) (st' : state) (ret : option val),
             exec oracle fuel (SIf c body orelse) st = Done (o, st') ->
-            exists t st1, steps oracle G (mkConfig bb (slen g bb) st ret)
+            exists (t : bool) (st1 : state), steps oracle G (mkConfig bb (slen g bb) st ret)
                             (mkConfig (if t then length g else S (length g)) 0 st1 ret) /\
               if t then osteps oracle G (mkConfig (length g) 0 st1 ret) j g4 te o st'
               else osteps oracle G (mkConfig (S (length g)) 0 st1 ret) j g5 ee o st').
@@ -117,7 +117,7 @@ Proof.
     destruct t.
     + eapply osteps_then; [exact OS|]. intros st2 ret2.
       rewrite SLm8, SLm7, SLm6. rewrite <- SLa5, <- SLa6.
-      apply link_jump; auto. unfold exit_idx; exact Na.
+      apply link_jump; auto.
     + eapply osteps_then; [exact OS|]. intros st2 ret2.
       rewrite SLm8, SLm7, SLm6. rewrite <- SLb6, <- SLb7.
       apply link_jump; auto.
